@@ -681,10 +681,17 @@ pub fn run_select(arms: &[&dyn SelArm], has_default: bool) -> Option<usize> {
                 with_world(|w| w.select_ties += 1);
             }
             let i = ready[crate::sched::choose(ready.len())];
+            if std::env::var_os("SVDEBUG").is_some() {
+                eprintln!("select task {:?} arms {} ready {:?} -> {} dead {}", if model { kernel::me() } else { 999 }, arms.len(), ready, i, arms[i].dead());
+            }
             if model {
                 let me = kernel::me();
                 if arms[i].dead() {
                     STREAK.with(|s| s.borrow_mut().entry(me).or_default().push(i));
+                    // a loop that keeps receiving errors from a disconnected channel is a spin
+                    // loop: make the waiting visible (the scheduler prefers the other tasks), else
+                    // a preemption-bounded schedule could run the spinner forever
+                    kernel::yield_now();
                 } else {
                     STREAK.with(|s| {
                         s.borrow_mut().remove(&me);
